@@ -29,6 +29,11 @@ def answeredAt (t0 T p f : Nat) : Nat :=
   | .fire => p
   | .second _ => f
 
+/-- `doExpried` on a node that is NOT the leader, for a replicated (journalled) hold reached through a call site that does not force the
+expiry: nothing is sent, the hold is re-armed `REARM` seconds ahead. -/
+def REARM : Nat := 30
+def followerDefer (now : Nat) : Nat := now + REARM
+
 def showNext : Next → String
   | .fire => "fire"
   | .second d => s!"second:{d}"
